@@ -272,12 +272,17 @@ func Run(h *History) []Result {
 // Reference computes what exec op k returns on fresh sets: every non-executing op before k
 // that succeeded in the real run is replayed on new objects, then op k is performed. The
 // result therefore depends only on definitions, name and data.
-func Reference(h *History, real []Result, k int) Result {
+func Reference(h *History, real []Result, k int, skip ...[]bool) Result {
 	e := NewExec(h)
 	defer e.Close()
 	for i := 0; i < k; i++ {
 		op := h.Ops[i]
 		if op.IsExec() || !real[i].Ran || real[i].IsErr || real[i].Panic != "" {
+			continue
+		}
+		if len(skip) > 0 && i < len(skip[0]) && skip[0][i] {
+			// a New(name) made after the first execution of the set: it must not have any
+			// effect on the set, so the definitions do not include it
 			continue
 		}
 		e.Do(op)
@@ -300,13 +305,18 @@ func sortStrings(a []string) {
 type Model struct {
 	setOf  []int
 	nameOf []string
+	orphan []bool // handle returned by New(name) after the first execution of its set
 	frozen map[int]bool
 	next   int
 }
 
+// Orphan reports whether variable v holds a template made by New after its set was executed:
+// it is not a member of the set, and what executing it gives is not specified.
+func (m *Model) Orphan(v int) bool { return v >= 0 && v < len(m.orphan) && m.orphan[v] }
+
 // NewModel creates a model for n variables.
 func NewModel(n int) *Model {
-	m := &Model{setOf: make([]int, n), nameOf: make([]string, n), frozen: map[int]bool{}}
+	m := &Model{setOf: make([]int, n), nameOf: make([]string, n), orphan: make([]bool, n), frozen: map[int]bool{}}
 	for i := range m.setOf {
 		m.setOf[i] = -1
 	}
@@ -343,15 +353,27 @@ func (m *Model) Apply(op Op, res Result) {
 		m.setOf[op.Dst] = m.next
 		m.nameOf[op.Dst] = op.Name
 	case "tnew":
+		if m.Frozen(op.H) || m.Orphan(op.H) {
+			// the set cannot be changed any more: nothing is replaced, the new template is
+			// not a member, parsing into it fails like parsing into any template of the set
+			if op.Dst >= 0 {
+				m.setOf[op.Dst] = m.setOf[op.H]
+				m.nameOf[op.Dst] = op.Name
+				m.orphan[op.Dst] = true
+			}
+			return
+		}
 		m.disassociate(m.setOf[op.H], op.Name, -1)
 		if op.Dst >= 0 {
 			m.setOf[op.Dst] = m.setOf[op.H]
 			m.nameOf[op.Dst] = op.Name
+			m.orphan[op.Dst] = false
 		}
 	case "lookup":
 		if op.Dst >= 0 {
 			m.setOf[op.Dst] = m.setOf[op.H]
 			m.nameOf[op.Dst] = op.Name
+			m.orphan[op.Dst] = false
 		}
 	case "parse":
 		if !res.IsErr && op.Dst >= 0 {
@@ -377,6 +399,7 @@ func (m *Model) Apply(op Op, res Result) {
 			m.next++
 			m.setOf[op.Dst] = m.next
 			m.nameOf[op.Dst] = m.nameOf[op.H]
+			m.orphan[op.Dst] = false
 		}
 	case "exec", "exect", "exechtml", "execthtml":
 		m.frozen[m.setOf[op.H]] = true
@@ -393,6 +416,7 @@ type GenOpts struct {
 	ParseAfter  bool // attempts to parse after execution
 	WildOps     bool // C08: redefinitions through New, lookups of odd names, exec on fresh handles
 	ExtraDefs   bool // parse additional definitions into clones
+	NewOps      bool // C07: New(name) of existing and fresh names, before and after execution, and parsing into the result
 }
 
 var plainData = []string{"a&b", "x<y>z", "say \"hi\"", "it's", "50%", "a b", "é", "/p?q=1&r=2", "javascript:alert(1)", "w", "", "ltr", "_self", "id1"}
@@ -519,6 +543,35 @@ func Gen(r *core.Rng, o GenOpts) (*History, gen.Set) {
 			if nextVar < h.NVar {
 				add(Op{Kind: "lookup", H: v, Dst: nextVar, Name: r.Pick(append([]string{"nope", "root", ""}, names...))})
 				live = append(live, nextVar)
+				nextVar++
+			}
+		case k < 90 && o.NewOps && r.Intn(3) == 0 && nextVar+1 < h.NVar:
+			// a handle that is replaced by New(name): it leaves the set, and what is parsed
+			// into it later must not reach the set
+			nn := names[r.Intn(len(names))]
+			stale, fresh := nextVar, nextVar+1
+			nextVar += 2
+			add(Op{Kind: "lookup", H: v, Dst: stale, Name: nn})
+			add(Op{Kind: "tnew", H: v, Dst: fresh, Name: nn})
+			add(Op{Kind: "parse", H: fresh, Dst: fresh, Text: "{{tick}}" + r.Pick([]string{"<i>new {{$.S0}}</i>", "<p title=\"{{$.S1}}\">n</p>", "<b>{{$.S0}}</b>"})})
+			if r.Bool() {
+				add(Op{Kind: "exect", H: v, Dst: -1, Name: nn, Data: r.Intn(len(h.Data))})
+			}
+			add(Op{Kind: "parse", H: stale, Dst: stale, Text: r.Pick([]string{"{{tick}}stale {{$.S0}}", "{{tick}}{{$.S0}}", `{{tick}}x{{define "` + names[r.Intn(len(names))] + `"}}{{tick}}hijacked {{$.S0}}{{end}}`})})
+			add(Op{Kind: "exect", H: v, Dst: -1, Name: nn, Data: r.Intn(len(h.Data))})
+			add(Op{Kind: "exect", H: v, Dst: -1, Name: names[r.Intn(len(names))], Data: r.Intn(len(h.Data))})
+		case k < 90 && o.NewOps:
+			if nextVar < h.NVar {
+				nn := r.Pick(append([]string{"fresh"}, names...))
+				add(Op{Kind: "tnew", H: v, Dst: nextVar, Name: nn})
+				if r.Intn(3) > 0 {
+					// give it a body (a redefinition if the set has not been executed, refused otherwise)
+					body := r.Pick([]string{"<i>new {{$.S0}}</i>", "<p title=\"{{$.S1}}\">n</p>", "plain", "{{$.S0}}"})
+					add(Op{Kind: "parse", H: nextVar, Dst: nextVar, Text: "{{tick}}" + body})
+				}
+				if r.Bool() {
+					add(Op{Kind: "exect", H: v, Dst: -1, Name: nn, Data: r.Intn(len(h.Data))})
+				}
 				nextVar++
 			}
 		case k < 90 && o.WildOps:
